@@ -235,9 +235,10 @@ fn ns_root(kids: Vec<XN>, root_attrs: Vec<(String, Vec<TP>, bool)>, ws: u8, mark
     s
 }
 
-fn fam_document(_t: Tier) -> BoxedStrategy<Case> {
-    (vec(node(), 0..6), vec(attr(), 0..4), any::<u8>(), any::<u8>(), gen::cfg_hostile())
-        .prop_map(|(kids, ra, ws, pre, cfg)| {
+/// Well-formed namespaced documents (also used by the sxml-vs-expat selftest).
+pub fn document_strategy() -> BoxedStrategy<String> {
+    (vec(node(), 0..6), vec(attr(), 0..4), any::<u8>(), any::<u8>())
+        .prop_map(|(kids, ra, ws, pre)| {
             let mut s = String::new();
             if pre & 1 != 0 {
                 s.push_str(if pre & 2 != 0 { "<?xml version=\"1.0\" encoding=\"UTF-8\" standalone=\"no\"?>\n" } else { "<?xml version='1.0'?>" });
@@ -261,9 +262,13 @@ fn fam_document(_t: Tier) -> BoxedStrategy<Case> {
             if pre & 128 != 0 {
                 s.push('\n');
             }
-            Case { input: s, cfg, embedded: false }
+            s
         })
         .boxed()
+}
+
+fn fam_document(_t: Tier) -> BoxedStrategy<Case> {
+    (document_strategy(), gen::cfg_hostile()).prop_map(|(input, cfg)| Case { input, cfg, embedded: false }).boxed()
 }
 
 fn fam_embedded(_t: Tier) -> BoxedStrategy<Case> {
